@@ -356,8 +356,27 @@ func (d *Driver) authReq(st *Step, b *Browser) {
 		if tsStr != "" {
 			v.Set("ts", tsStr)
 		}
-		if method == "POST" {
+		if method == "POST" && st.Body != "" {
+			// parameters split over query string and form body: the signed set in one place, another
+			// redirect_uri (st.Body) in the other
+			alt := url.Values{"redirect_uri": {d.subst(b, st.Body)}}
+			if st.Arg2%2 == 0 {
+				r = Req{Method: "POST", URL: base + st.Endpoint + "?" + v.Encode(), Body: []byte(alt.Encode()), Headers: [][2]string{{"Content-Type", "application/x-www-form-urlencoded"}}}
+			} else {
+				r = Req{Method: "POST", URL: base + st.Endpoint + "?" + alt.Encode(), Body: []byte(v.Encode()), Headers: [][2]string{{"Content-Type", "application/x-www-form-urlencoded"}}}
+			}
+			d.Res.probe("authreq_split_parameters")
+		} else if method == "POST" {
 			r = Req{Method: "POST", URL: base + st.Endpoint, Body: []byte(v.Encode()), Headers: [][2]string{{"Content-Type", "application/x-www-form-urlencoded"}}}
+		} else if st.Body != "" {
+			// the same parameter twice in the query string
+			alt := url.Values{"redirect_uri": {d.subst(b, st.Body)}}
+			if st.Arg2%2 == 0 {
+				r = Req{Method: method, URL: base + st.Endpoint + "?" + v.Encode() + "&" + alt.Encode()}
+			} else {
+				r = Req{Method: method, URL: base + st.Endpoint + "?" + alt.Encode() + "&" + v.Encode()}
+			}
+			d.Res.probe("authreq_duplicate_parameter")
 		} else {
 			r = Req{Method: method, URL: base + st.Endpoint + "?" + v.Encode()}
 		}
